@@ -133,7 +133,12 @@ pub fn run_sim<R: Send + 'static>(
     while !handles.iter().all(|h| h.is_finished()) {
         std::thread::sleep(std::time::Duration::from_millis(5));
         let now = (sched::progress(), cpu_ms());
-        let idle = now.0 == last.0 && now.1.saturating_sub(last.1) < 2;
+        // stalled = no scheduler step, (almost) no CPU consumed by the sim threads, AND the baton
+        // holder is asleep in the kernel — on a busy machine a holder that merely waits for a
+        // core is runnable, and must never be mistaken for a blocked one
+        let quiet = now.0 == last.0 && now.1.saturating_sub(last.1) < 2;
+        // (the look at /proc is taken only once things have been quiet for a while)
+        let idle = quiet && (stalled_since.is_none() || stalled_since.is_some_and(|t| t.elapsed().as_millis() < 40) || sched::holder_is_asleep());
         if !idle {
             last = now;
             stalled_since = None;
